@@ -53,8 +53,7 @@ PURE_FUNCS = {'len', 'str', 'sum', 'list', 'tuple', 'iter', 'next', 'isinstance'
               'chain', '_gen_http_headers', 'get_fault_string_from_exception', 'min', 'max', 'int',
               'bool', 'repr', 'getattr', 'hasattr', 'time'}
 PURE_METHODS = {'startswith', 'join', 'get', 'fault_to_http_response_code', 'items', 'keys', 'values',
-                'upper', 'lower', 'partition', 'split', 'update',
-                '_WsgiApplication__reconstruct_wsgi_request', '__reconstruct_wsgi_request'}
+                'upper', 'lower', 'partition', 'split', 'update'}
 LOGGERS = {'logger', 'logger_client', 'logger_server'}
 
 # conditions that engage machinery outside the model (generators / push / MTOM): the branch is
@@ -229,6 +228,9 @@ class Fn(object):
                 if not c.args or not self.is_ctx(c.args[0]):
                     self.err(c, 'protocol step not applied to the context')
                 return ('Ref', table[txt])
+            if txt == 'self.__reconstruct_wsgi_request':
+                # reads the declared length (may refuse it); the body itself is read lazily
+                return ('Ref', 'lib_reconstruct')
             if txt == 'self.app.process_request':
                 self.need_ctx_arg(c)
                 return ('Ref', self.tr.want('app', 'process_request'))
@@ -399,6 +401,8 @@ class Fn(object):
             return ('opaque_true',)
         if txt == 'self.chunked' and self.owner == 'server':
             return ('config', self.tr.config_default('chunked'))
+        if txt == 'not self.chunked' and self.owner == 'server':
+            return ('config', not self.tr.config_default('chunked'))
         # any other test must not depend on the value of a tracked attribute (reading a field OF
         # the descriptor, ctx.descriptor.x, is not a test of the descriptor itself)
         parents = {}
@@ -523,7 +527,16 @@ class Fn(object):
                 pass
         out = []
         if any(tvars):
-            if len(flat) != 1 or not isinstance(s, ast.Assign):
+            if not isinstance(s, ast.Assign):
+                self.err(s, 'tracked attribute in a compound assignment')
+            if len(flat) > 1:
+                # a = b = e  (chained): every target tracked, value the current exception or None
+                if not all(tvars) or len(targets) != len(flat):
+                    self.err(s, 'tracked attribute in a compound assignment')
+                if isinstance(value, ast.Constant) and value.value is None:
+                    return Seq([('SetNone', v) for v in tvars])
+                if isinstance(value, ast.Name) and self.exc_names and value.id == self.exc_names[-1]:
+                    return Seq([('SetExc', v) for v in tvars])
                 self.err(s, 'tracked attribute in a compound assignment')
             v = tvars[0]
             if isinstance(value, ast.Constant) and value.value is None:
